@@ -290,24 +290,43 @@ func (h *H) open() error {
 	return h.quiesce()
 }
 
-// closeAll releases every gate and closes collection and store.
+// closeAll closes collection and store.  Close is started first; the
+// parked background actors are released only once the collection is marked
+// closed, so that what they still do is what Close allows them to do (an
+// in-flight LowerLevelUpdate completes; nothing new is started).
 func (h *H) closeAll() error {
-	atomic.StoreInt32(&h.gating, 0)
-	h.releaseActor("merger")
-	h.releaseActor("persister")
 	done := make(chan error, 1)
+	coll, store := h.coll, h.store
 	go func() {
 		var err error
-		if h.coll != nil {
-			err = h.coll.Close()
+		if coll != nil {
+			err = coll.Close()
 		}
-		if h.store != nil {
-			if e := h.store.Close(); err == nil {
+		if store != nil {
+			if e := store.Close(); err == nil {
 				err = e
 			}
 		}
 		done <- err
 	}()
+	if coll != nil {
+		deadline := time.Now().Add(10 * time.Second)
+		for {
+			if d := moss.VerifDumpCollection(coll); d == nil || d.Closed {
+				break
+			}
+			if time.Now().After(deadline) {
+				return fmt.Errorf("close: collection never became closed")
+			}
+			time.Sleep(20 * time.Microsecond)
+		}
+	}
+	atomic.StoreInt32(&h.gating, 0)
+	h.releaseActor("merger")
+	h.releaseActor("persister")
+	tick := time.NewTicker(time.Millisecond)
+	defer tick.Stop()
+	timeout := time.After(20 * time.Second)
 	for {
 		select {
 		case err := <-done:
@@ -319,11 +338,11 @@ func (h *H) closeAll() error {
 			h.mu.Unlock()
 			return err
 		case <-h.arrive:
-			// an actor that was between gates arrived after gating went off: cannot
-			// happen (gating==0 returns early), but be safe.
+		case <-tick.C:
+			// an actor that reached a gate just before gating went off
 			h.releaseActor("merger")
 			h.releaseActor("persister")
-		case <-time.After(20 * time.Second):
+		case <-timeout:
 			return fmt.Errorf("close timeout")
 		}
 	}
@@ -336,4 +355,58 @@ func mustMkdirTemp(base, pat string) string {
 		panic(err)
 	}
 	return d
+}
+
+type storeCounters struct {
+	persists, full, partial, segs uint64
+	ok                            bool
+}
+
+func (h *H) storeCounters() storeCounters {
+	if h.store == nil {
+		return storeCounters{}
+	}
+	st, err := h.store.Stats()
+	if err != nil {
+		return storeCounters{}
+	}
+	u := func(k string) uint64 { v, _ := st[k].(uint64); return v }
+	return storeCounters{u("total_persists"), u("total_compactions"), u("total_compactions_partial"),
+		u("num_segments"), true}
+}
+
+// persistChoice tells what Store.Persist did since `before`.
+func (h *H) persistChoice(before storeCounters) sx {
+	if h.store == nil {
+		return L("append")
+	}
+	after := h.storeCounters()
+	switch {
+	case after.full > before.full:
+		return L("compact", 0)
+	case after.partial > before.partial:
+		return L("compact", int(after.segs)-1)
+	case after.persists > before.persists:
+		return L("append")
+	}
+	return L("noop")
+}
+
+// closeAllObserved closes everything; when a persistence round was parked at
+// its start it runs to completion during Close, and what it did to the store
+// is reported.
+func (h *H) closeAllObserved(inflight bool) (sx, error) {
+	if !inflight || h.store == nil {
+		return "none", h.closeAll()
+	}
+	// keep the store open across the collection close to read its counters
+	before := h.storeCounters()
+	h.store.AddRef()
+	st := h.store
+	err := h.closeAll()
+	h.store = st
+	choice := h.persistChoice(before)
+	h.store = nil
+	st.Close()
+	return choice, err
 }
